@@ -54,6 +54,6 @@ Definition mismatch (c : case) : bool :=
 
 (** the property as the implementation realises it (MsgBurnNative may burn the signer's own coins
     of any denom) … *)
-Definition violates (c : case) : bool := let '(_, k, r0, t) := c in negb (Pb false (mk_snap k r0) (trace_of k t)).
+Definition violates (c : case) : bool := let '(bl, k, r0, t) := c in negb (Pb false bl (mk_snap k r0) (trace_of k t)).
 (** … and to the letter (a tf supply moves only by its admin's Mint / Burn) *)
-Definition violates_strict (c : case) : bool := let '(_, k, r0, t) := c in negb (Pb true (mk_snap k r0) (trace_of k t)).
+Definition violates_strict (c : case) : bool := let '(bl, k, r0, t) := c in negb (Pb true bl (mk_snap k r0) (trace_of k t)).
